@@ -156,8 +156,8 @@ func VfC06_Parse() {
 //vf:unwind 300
 //vf:steps 60000000
 func VfC06_ParseMore() {
-	nd := vfString("n", 1) // vector length digit
-	wd := vfString("w", 1) // bit width digit
+	nd := vfString("n", 1)  // vector length digit
+	wd := vfString("w", 1)  // bit width digit
 	ad := vfString("as", 1) // address space digit
 	vfAssume(vfAnd(nd[0] >= '1', nd[0] <= '9'))
 	vfAssume(vfAnd(wd[0] >= '2', wd[0] <= '9'))
